@@ -10,7 +10,7 @@ ASSUMPTIONS = ["a process step (one module entry point) is atomic: rwlock stubbe
                "parsec_taskpool_lookup stub returns the instance of the rank being delivered to",
                "an application message creates exactly one task on its destination; a task sends at most one message per event",
                "class system: parsec_class_initialize replaced by an equivalent initializer over static arrays (clsstub.c)"]
-BOUNDS = {"quick": {"ranks": 2, "events K": "6 (+ prefixes)"}, "thorough": {"ranks": "2..3", "events K": "8..10 (+ prefixes)"}}
+BOUNDS = {"quick": {"ranks": "2 (one N=3 K=6 query)", "events K": "6 (+ prefixes)", "one-step contracts": "tree size 1..7, counters <= 100000"}, "thorough": {"ranks": "2..3", "events K": "8..10 (+ prefixes)"}}
 SRCS = ["h.c", "clsstub.c", "repo:parsec/class/parsec_list.c"]
 def queries(ctx):
     info = {"symbolic": ["initial tasks per rank", "event kind, ranks a,b, send/keep-running choice, whole/split reception per step"],
@@ -70,7 +70,7 @@ def mutants(ctx):
 CLAIMED = True
 MANIFEST = {
  "engine": "cbmc-src",
- "text": "Bounded model checking of the real termdet_fourcounter_module.c with 2 (thorough: 3) process instances in one address space: the solver chooses every sequence of K events (task completes / sends, application message reception started / finished, control message delivered, late start-up release) and every initial load; the termination callback asserts that no rank has work and no application message is in flight (safety), no quiet state short of termination is reachable and the root never rejects a third consecutive wave after quiescence (bounded progress); at most one control message per channel. A separate query checks the delayed-message path (messages for a not-yet-ready or unknown taskpool are parked and replayed exactly once by taskpool_ready, per taskpool id).",
+ "text": "Bounded model checking of the real termdet_fourcounter_module.c with 2 (thorough: 3) process instances in one address space: the solver chooses every sequence of K events (task completes / sends, application message reception started / finished, control message delivered, late start-up release) and every initial load; the termination callback asserts that no rank has work and no application message is in flight (safety), no quiet state short of termination is reachable and the root never rejects a third consecutive wave after quiescence (bounded progress); at most one control message per channel. Three one-step contract queries start from a SYMBOLIC monitor state (tree size 1..7, any rank, symbolic counters/accumulators/previous wave) and pin down the wave rules without any history: the root terminates iff the completed wave equals the previous wave in both counters and sent == received, otherwise starts another wave; a non-root forwards exactly own + children counters to its parent; DOWN is forwarded unchanged to every child. A separate query checks the delayed-message path (messages for a not-yet-ready or unknown taskpool are parked and replayed exactly once by taskpool_ready, per taskpool id).",
  "note": "process steps atomic (rwlock stubbed), reliable order-preserving channels, <=3 ranks, K<=6 events after enumerated prefixes (thorough 8..10); unbounded liveness, real MPI and intra-rank threading outside the claim.",
  "technique": "CBMC bounded symbolic execution of the real C unit (N in-process ranks, symbolic event sequence) + SAT (cadical)",
 }
